@@ -907,8 +907,20 @@ def gen_document(rng, size=1, ns=NS_141, **opts):
         body += g.el('scene', [])
     if g.chance(0.2):
         body += g.extra()
-    decl = ' xmlns:c="%s"' % ns if g.prefix else ' xmlns="%s"' % ns
-    xml = '<?xml version="1.0" encoding="utf-8"?>\n' + g.el('COLLADA', [('version', '1.4.1')], body, extra_decl=decl)
+    decl = ' xmlns:c="%s"' % esc(ns) if g.prefix else ' xmlns="%s"' % esc(ns)
+    # the root's own attributes: version present / absent / odd, xml:base, further namespace declarations
+    version = rng.choice(['1.4.1', '1.4.1', '1.4.1', '1.4.0', '1.5.0', None, '', '1.5.0-draft', 'x'])
+    rattrs = [('version', version)]
+    if g.chance(0.15):
+        rattrs.append(('xml:base', 'http://example.org/assets/'))
+    if g.chance(0.15):
+        decl += ' xmlns:xsi="http://www.w3.org/2001/XMLSchema-instance" xsi:schemaLocation="%s http://example.org/collada.xsd"' % esc(ns)
+    if g.chance(0.1):
+        decl += ' xmlns:unused="urn:x-verif:unused"'
+    if g.chance(0.3):
+        rng.shuffle(rattrs)
+    D['root_version'] = version
+    xml = '<?xml version="1.0" encoding="utf-8"?>\n' + g.el('COLLADA', rattrs, body, extra_decl=decl)
     D['prefixed'] = bool(g.prefix)
     D['repair_paths'] = any(e.get('uses_direct') for e in D['effects'])
     D['foreign'] = bool(g.foreign)
